@@ -360,7 +360,7 @@ def conditions(tier):
             fixed['l4'] = NONE
         cs.append(Cond(
             f'k_status_l{l1}', specialise(k_status, **fixed),
-            specialise(k_status_pre, **fixed), timeout=900 if full else 300, group='status',
+            specialise(k_status_pre, **fixed), timeout=2400 if full else 300, group='status',
             twin=(l1 == 1),
             descr='real SystemGPGEnvironment.verify_file with the gpg process replaced by a '
                   'transcript: every sequence of status lines from gpg\'s verification '
